@@ -645,6 +645,23 @@ func main() {
 	b.WriteString("/-- functions of package client that call RowsShallow, with whether they clone what they keep -/\n")
 	b.WriteString("def clientShallowUsers : List (String × Bool) := [" + strings.Join(shallowUsers, ", ") + "]\n\n")
 	summary["cache_raw_escapes"] = len(escapes)
+	// C03 / C08: the tables of accepted mutators and condition functions per type (ovsdb/bindings.go)
+	for _, tb := range []struct{ fn, name, doc string }{
+		{"validateMutationAtomic", "mutationAtomicTable", "validateMutationAtomic: atomic types (case labels) and the mutators accepted for them (\"*\" = every one)"},
+		{"ValidateCondition", "conditionTable", "ValidateCondition: column types (case labels) and the condition functions accepted for them (\"*\" = every one)"},
+	} {
+		rows := switchTable(filepath.Join(*repo, "ovsdb", "bindings.go"), tb.fn)
+		b.WriteString("/-- " + tb.doc + " -/\n")
+		b.WriteString("def " + tb.name + " : List (List String × List String) := [")
+		for i, r := range rows {
+			if i > 0 {
+				b.WriteString(", ")
+			}
+			b.WriteString("([" + quoteAll(r[0]) + "], [" + quoteAll(r[1]) + "])")
+		}
+		b.WriteString("]\n\n")
+		summary[tb.name] = len(rows)
+	}
 	// C18: every rpc2 codec is wrapped so that requests and responses are not written concurrently
 	codecs := codecFacts(*repo)
 	b.WriteString("/-- rpc2 codecs of packages client and server that are handed to rpc2 without the serializing wrapper,\n    and wrapper methods that do not take the wrapper's mutex around the write (rpc2 writes responses under no lock) -/\n")
@@ -662,6 +679,81 @@ func main() {
 	}
 	j, _ := json.Marshal(summary)
 	fmt.Println(string(j))
+}
+
+// switchTable: the first `switch` statement with a tag at the top level of function fn; for every case clause its
+// labels and what it accepts: the labels of the clauses of a nested switch that end in `return nil`, or "*"
+// when the clause itself ends in `return nil`
+func switchTable(file, fn string) [][2][]string {
+	fset := token.NewFileSet()
+	f, err := parser.ParseFile(fset, file, nil, 0)
+	if err != nil {
+		fmt.Fprintln(os.Stderr, err)
+		os.Exit(1)
+	}
+	label := func(e ast.Expr) string {
+		switch x := e.(type) {
+		case *ast.Ident:
+			return x.Name
+		case *ast.SelectorExpr:
+			return x.Sel.Name
+		case *ast.BasicLit:
+			return x.Value
+		}
+		return "?"
+	}
+	returnsNil := func(body []ast.Stmt) bool {
+		if len(body) == 0 {
+			return false
+		}
+		r, ok := body[len(body)-1].(*ast.ReturnStmt)
+		if !ok || len(r.Results) != 1 {
+			return false
+		}
+		id, ok := r.Results[0].(*ast.Ident)
+		return ok && id.Name == "nil"
+	}
+	var out [][2][]string
+	for _, d := range f.Decls {
+		fd, ok := d.(*ast.FuncDecl)
+		if !ok || fd.Name.Name != fn || fd.Body == nil {
+			continue
+		}
+		for _, st := range fd.Body.List {
+			sw, ok := st.(*ast.SwitchStmt)
+			if !ok || sw.Tag == nil {
+				continue
+			}
+			for _, c := range sw.Body.List {
+				cc := c.(*ast.CaseClause)
+				var labels, accepted []string
+				for _, e := range cc.List {
+					labels = append(labels, label(e))
+				}
+				if cc.List == nil {
+					labels = []string{"default"}
+				}
+				if returnsNil(cc.Body) {
+					accepted = []string{"*"}
+				}
+				for _, b := range cc.Body {
+					if inner, ok := b.(*ast.SwitchStmt); ok {
+						for _, ic := range inner.Body.List {
+							icc := ic.(*ast.CaseClause)
+							if returnsNil(icc.Body) {
+								for _, e := range icc.List {
+									accepted = append(accepted, label(e))
+								}
+							}
+						}
+					}
+				}
+				out = append(out, [2][]string{labels, accepted})
+			}
+			return out
+		}
+	}
+	return out
 }
 
 // codecFacts: in packages client and server, (1) every argument of rpc2.NewClientWithCodec / ServeCodec /
